@@ -90,13 +90,13 @@ type vfUnit struct {
 	Rng   *vfRand
 	ID    string
 
-	mu      sync.Mutex
-	res     vfUnitResult
-	classes map[uint64]struct{}
-	sets    map[string]map[string]struct{}
-	journal *os.File
-	tmp     string
-	t       *testing.T
+	mu        sync.Mutex
+	res       vfUnitResult
+	classes   map[uint64]struct{}
+	sets      map[string]map[string]struct{}
+	journal   *os.File
+	tmp       string
+	t         *testing.T
 	skipCases map[int]bool
 	budget    map[string]int
 }
@@ -789,14 +789,14 @@ func vfParentMain(t *testing.T, c *vfCheck) {
 	}
 	assumptions := append([]string{}, c.Assumptions...)
 	ev := map[string]any{
-		"property_id": c.ID,
-		"tier":        tier.String(),
-		"seed":        seed,
-		"level":       c.Level,
-		"coverage":    cov,
-		"assumptions": assumptions,
-		"wall_s":      time.Since(start).Seconds(),
-		"violations":  len(viol),
+		"property_id":         c.ID,
+		"tier":                tier.String(),
+		"seed":                seed,
+		"level":               c.Level,
+		"coverage":            cov,
+		"assumptions":         assumptions,
+		"wall_s":              time.Since(start).Seconds(),
+		"violations":          len(viol),
 		"known_findings_seen": len(knownLines),
 		"inconclusive":        merged.inconclusive,
 		"go":                  runtime.Version(),
